@@ -7,6 +7,7 @@ package partition
 import (
 	"encoding/json"
 	"fmt"
+	"github.com/Nextdoor/pg-bifrost.git/utils"
 	"hash/crc32"
 	"math/rand"
 	"os"
@@ -34,6 +35,10 @@ type pcase struct {
 	Method  string `json:"method"` // name as given to --partition-method
 	Buckets int    `json:"buckets"`
 	Msgs    []pmsg `json:"msgs"`
+	// Router: while the partitioner runs, a second goroutine does what Batcher.sendBatch does for every
+	// batch under partition routing - utils.QuickHash(<batch key>, workers) - as the batcher does in the
+	// assembled pipeline.  The key of a record must stay a function of the record alone.
+	Router bool `json:"router,omitempty"`
 }
 
 type pobs struct {
@@ -78,11 +83,32 @@ func runPartitionImpl(c pcase) pobs {
 		in <- &replication.WalMessage{WalStart: uint64(i), Pr: pr}
 	}
 	close(in)
+	stopRouter := make(chan struct{})
+	routerDone := make(chan struct{})
+	if c.Router {
+		go func() {
+			defer close(routerDone)
+			defer func() { _ = recover() }()
+			keys := []string{"public.a", "0", "17", "700012", "public.customers", ""}
+			for i := 0; ; i++ {
+				select {
+				case <-stopRouter:
+					return
+				default:
+				}
+				_ = utils.QuickHash(keys[i%len(keys)], 4)
+			}
+		}()
+	} else {
+		close(routerDone)
+	}
 	go p.Start()
 	var o pobs
 	for m := range p.OutputChan {
 		o.Keys = append(o.Keys, m.PartitionKey)
 	}
+	close(stopRouter)
+	<-routerDone
 	o.Panicked = len(o.Keys) < len(c.Msgs)
 	return o
 }
@@ -169,6 +195,17 @@ func genPartitionCase(rng *rand.Rand) pcase {
 		c.Msgs = append(c.Msgs, pmsg{Rel: relPool[rng.Intn(len(relPool))], Txn: hexEncode(txns[rng.Intn(3)])})
 	}
 	c.Mode = c.Method
+	if rng.Intn(10) == 0 {
+		// the partitioner beside a busy batch router: many records of many transactions
+		c.Method, c.Buckets, c.Router, c.Msgs = "transaction-bucket", 2+rng.Intn(60), true, nil
+		for t := 0; t < 40; t++ {
+			tx := hexEncode(strconv.Itoa(700000 + rng.Intn(100000)))
+			for k := 3 + rng.Intn(8); k > 0; k-- {
+				c.Msgs = append(c.Msgs, pmsg{Rel: relPool[rng.Intn(len(relPool))], Txn: tx})
+			}
+		}
+		c.Mode = "transaction-bucket+router"
+	}
 	return c
 }
 
